@@ -119,6 +119,7 @@ structure SDev where
   addr : Nat
   serial : Nat
   chatty : Bool     -- answers every serial read (with its own serial)
+  obeys : Bool      -- takes an address written to its serial
   deriving DecidableEq, Repr
 
 /-- Responses to A_IndividualAddressSerialNumber_Read(s): (source address, serial in the response). -/
@@ -130,7 +131,7 @@ def serialRead (bus : List SDev) (s : Nat) : Option Nat :=
   ((serialResponses bus s).find? fun r => r.2 = s).map (·.1)
 
 def serialWriteBus (bus : List SDev) (s a : Nat) : List SDev :=
-  bus.map fun d => if d.serial = s then { d with addr := a } else d
+  bus.map fun d => if d.serial = s ∧ d.obeys then { d with addr := a } else d
 
 /-- `nm_individual_address_serial_number_write`. -/
 def serialWrite (bus : List SDev) (s a : Nat) : Res × List SDev :=
@@ -180,7 +181,7 @@ def Dev.render (d : Dev) : String :=
     (match d.beh with | .answers => "A" | .silent => "S" | .refuses => "R")
 
 def SDev.render (d : SDev) : String :=
-  addrCh d.addr ++ toString d.serial ++ (if d.chatty then "c" else "q")
+  addrCh d.addr ++ toString d.serial ++ (if d.chatty then "c" else "q") ++ (if d.obeys then "w" else "x")
 
 def renderOut (res : Res) (tels : List Tel) (acks : List (Nat × Nat)) (pop : List String) : String :=
   joinOr (tels.map Tel.render) ++ " +" ++ joinOr (acks.map fun a => s!"A:{addrCh a.1}:{a.2}") ++
@@ -200,13 +201,14 @@ def parseDev (s : String) : Option Dev :=
 
 def parseSDev (s : String) : Option SDev :=
   match s.toList with
-  | [a, n, c] =>
+  | [a, n, c, w] =>
     let addr? := if a = 't' then some 0 else if a = 'o' then some 1 else none
     let ser? := if n = '1' then some 1 else if n = '2' then some 2 else none
     let ch? := if c = 'c' then some true else if c = 'q' then some false else none
-    match addr?, ser?, ch? with
-    | some a, some n, some c => some ⟨a, n, c⟩
-    | _, _, _ => none
+    let ob? := if w = 'w' then some true else if w = 'x' then some false else none
+    match addr?, ser?, ch?, ob? with
+    | some a, some n, some c, some w => some ⟨a, n, c, w⟩
+    | _, _, _, _ => none
   | _ => none
 
 def parsePop {α : Type} (f : String → Option α) (s : String) : Option (List α) :=
